@@ -487,8 +487,13 @@ static void do_clear(int nullcb, int level)
     vrt_state(Mn == 0 ? "empty" : Mn == 1 ? "one-entry" : "several-entries");
     VRT_OP2("map.clear", "callback=%ld entries=%ld", !nullcb, Mn);
     vrt_ev_begin();
-    if (nullcb) cstl_map_clear(map, NULL, NULL);
-    else cstl_map_clear(map, clear_cb, &clr_cookie);
+    if (vrt_case_tick() & 1) {
+        if (nullcb) cstl_map_clear(map, NULL, NULL);
+        else cstl_map_clear(map, clear_cb, &clr_cookie);
+    } else {
+        /* clear has no way to fail: every second one runs while the allocator refuses everything */
+        VRT_NOMEM(if (nullcb) cstl_map_clear(map, NULL, NULL); else cstl_map_clear(map, clear_cb, &clr_cookie));
+    }
     if (!nullcb) {
         VRT_CHECK(clr_seen == before, "map.clear.cb-count", "clear handed over %d of %d entries", clr_seen, before);
     }
